@@ -244,6 +244,25 @@ func accessesOf(w *World, fn *ssa.Function, classes map[string]*guardedClass) []
 		if isAtomicType(st.Field(fa.Field).Type()) || strings.HasPrefix(tstr(st.Field(fa.Field).Type(), nil), "sync.") {
 			return // atomics, WaitGroups, pools synchronise themselves
 		}
+		// a struct held by value that carries its own mutex (a metrics block with a leaf lock): its fields are accounted
+		// for under that mutex as accesses of its own class; taking its address synchronises nothing and needs nothing
+		if nt, isNamed := st.Field(fa.Field).Type().(*types.Named); isNamed {
+			if inner := classes[namedTypeName(nt)]; inner != nil && nt.Obj().Pkg() == w.Types {
+				onlyAddr := true
+				for _, ref := range *fa.Referrers() {
+					switch x := ref.(type) {
+					case *ssa.FieldAddr, *ssa.DebugRef:
+					case ssa.CallInstruction:
+						_ = x
+					default:
+						onlyAddr = false
+					}
+				}
+				if onlyAddr {
+					return
+				}
+			}
+		}
 		acc := fieldAccess{Fn: fn, In: in, Class: g.Name, Field: f, Base: c.S(fa.X)}
 		// locally allocated object?
 		root := fa.X
